@@ -164,7 +164,27 @@ impl Regs {
   pub fn new() -> Regs { Regs { r: (0..NREG).map(|_| None).collect() } }
   pub fn reset(&mut self, out: &mut Out) { for x in self.r.iter_mut() { *x = None; } out.emit(json!({"ev": "reset"})); }
   pub fn used(&self) -> Vec<usize> { (0..NREG).filter(|k| self.r[*k].is_some()).collect() }
-  pub fn set(&mut self, k: usize, bm: Option<BMOC>) { self.r[k] = bm; }
+  /// A malformed result is never kept as an operand: the crate's operators assume well-formed inputs and may loop or allocate
+  /// without bound on anything else (observed under a seeded change: `not` of a garbage entry asked for 50 GB). The event that
+  /// produced it has already been emitted (the trace spec rejects it); the block simply ends there, as after a panic.
+  pub fn set(&mut self, k: usize, bm: Option<BMOC>) { self.r[k] = bm.filter(well_formed); }
+}
+/// well-formedness through the harness's own decoder: depth <= dmax, base cell < 12, z-order strictly increasing, no overlap
+pub fn well_formed(bm: &BMOC) -> bool {
+  let dmax = bm.get_depth_max();
+  if dmax > 29 { return false; }
+  let mut prev: Option<C> = None;
+  for r in bm.entries.iter() {
+    if *r >> 1 == 0 { return false; }
+    let c = decode_raw(*r, dmax);
+    if c.b >= 12 || c.depth() > dmax || (*r >> (2 + 2 * (dmax - c.depth()) as u32)) >= (12u64 << (2 * c.depth() as u32)) { return false; }
+    if let Some(q) = &prev {
+      let k = q.p.len().min(c.p.len());
+      if (q.b, &q.p[..k]) >= (c.b, &c.p[..k]) { return false; } // not after, or one contains the other
+    }
+    prev = Some(c);
+  }
+  true
 }
 
 pub fn ev_new(regs: &mut Regs, out: &mut Out, k: usize, dmax: u8, cs: &[C]) {
@@ -208,14 +228,16 @@ pub fn ev_op(regs: &mut Regs, out: &mut Out, op: &str, a: usize, b: usize, o: us
 }
 pub fn ev_law(regs: &Regs, out: &mut Out, name: &str, a: usize, b: usize) {
   let (ra, rb) = (regs.r[a].as_ref().unwrap(), regs.r[b].as_ref().unwrap());
-  let holds = guarded(|| match name {
-    "notnot" => ra.not().not().equals(ra),
-    "demorgan" => ra.and(rb).not().equals(&ra.not().or(&rb.not())),
-    "xor_self" => ra.xor(ra).equals(&build(ra.get_depth_max(), &[])),
-    "or_not" => ra.or(&ra.not()).equals(&build(ra.get_depth_max(), &(0..12).map(|b| C { b, p: vec![], f: true }).collect::<Vec<_>>())),
+  // every intermediate result is checked before it is used as an operand (see Regs::set); a malformed one falsifies the law
+  let wf = |x: BMOC| -> Option<BMOC> { Some(x).filter(well_formed) };
+  let holds = guarded(|| -> Option<bool> { Some(match name {
+    "notnot" => wf(wf(ra.not())?.not())?.equals(ra),
+    "demorgan" => wf(wf(ra.and(rb))?.not())?.equals(&wf(wf(ra.not())?.or(&wf(rb.not())?))?),
+    "xor_self" => wf(ra.xor(ra))?.equals(&build(ra.get_depth_max(), &[])),
+    "or_not" => wf(ra.or(&wf(ra.not())?))?.equals(&build(ra.get_depth_max(), &(0..12).map(|b| C { b, p: vec![], f: true }).collect::<Vec<_>>())),
     _ => unreachable!(),
-  });
-  out.emit(json!({"ev": "law", "law": name, "a": a, "b": if name == "demorgan" { b } else { a }, "p": holds.is_none() as u8, "holds": holds.unwrap_or(false) as u8}));
+  }) });
+  out.emit(json!({"ev": "law", "law": name, "a": a, "b": if name == "demorgan" { b } else { a }, "p": holds.is_none() as u8, "holds": holds.flatten().unwrap_or(false) as u8}));
 }
 pub fn ev_view(regs: &Regs, out: &mut Out, k: usize) {
   let bm = regs.r[k].as_ref().unwrap();
@@ -226,7 +248,8 @@ pub fn ev_view(regs: &Regs, out: &mut Out, k: usize) {
   let hint = { let it = bm.flat_iter(); it.size_hint() == (deep, Some(deep)) && it.deep_size() == deep && it.depth() == dmax
                && { let ic = bm.flat_iter_cell(); ic.size_hint() == (deep, Some(deep)) && ic.deep_size() == deep && ic.depth() == dmax } };
   let ranges: Vec<Value> = bm.to_ranges().iter().map(|r| json!([big_digits(r.start), big_digits(r.end)])).collect();
-  let small = deep <= 400;
+  let own_deep: u128 = cells_of(bm).iter().map(|c| 1u128 << (2 * (dmax.saturating_sub(c.depth())) as u32)).sum();
+  let small = deep <= 400 && own_deep <= 400;
   let flatc = |h: u64| -> Value { let (b, p) = path_of_hash(dmax, h); json!({"b": b, "p": p}) };
   let (flat, flatarr, flatcell) = if small {
     (bm.flat_iter().map(flatc).collect::<Vec<_>>(), bm.to_flat_array().iter().map(|h| flatc(*h)).collect::<Vec<_>>(),
